@@ -247,6 +247,8 @@ class Templates:
         # one definition, or one per branch (`let piece = if c { helper(..) } else { TokenStream::new() }`)
         found = []
         for d in ds:
+            if d[2] == "assign" and d[3]["r"]["k"] == "use" and self.stream_alts(cur):
+                continue        # this branch takes a template of the fn itself (see stream_alts)
             if d[2] != "call":
                 return None
             name = mir.callee_of(d[3])
@@ -352,8 +354,22 @@ class Templates:
                 out.append(CLOSE.get(tk.text, ")"))
             elif tk.kind == "interp":
                 alts = self.stream_alts(tk.src)
+                mixed = None
+                if alts and follow and depth < 6 and tk.ty and "TokenStream" in tk.ty:
+                    # one branch builds the piece here, another takes it from a helper
+                    mixed = self.callee_templates_all(tk, types=False)
                 if argmap and tk.src in argmap:
                     out.extend(argmap[tk.src])
+                elif alts and mixed and all(c is not self for c in mixed):
+                    out.append("⟨alt")
+                    for a in alts:
+                        out.extend(self.render(a, depth + 1, seen, follow, argmap))
+                        out.append("¦")
+                    for c in mixed:
+                        for r in c.root_streams():
+                            out.extend(c.render(r, depth + 2, None, follow))
+                            out.append("¦")
+                    out[-1] = "⟩"
                 elif alts and tk.ty and "TokenStream" in tk.ty:
                     if len(alts) == 1:
                         out.extend(self.render(alts[0], depth + 1, seen, follow, argmap))
